@@ -244,10 +244,27 @@ type Env struct {
 	nameByCh map[byte]string
 	DeadWhy  string
 	Anchor   *StubPeer
+	Abandoned bool // a violation left goroutines of this environment blocked: do not pull its files from under them
 	queued   int // messages put on the consensus queue while nobody drains it (syncing)
 }
 
 const gossipSleep = time.Millisecond
+
+// scratchDir makes a directory under the run's scratch area (created by the parent process, removed by
+// it at the end of the run; tmpfs if available).
+func scratchDir() string {
+	base := os.Getenv("C18_SCRATCH")
+	if base == "" {
+		if fi, err := os.Stat("/dev/shm"); err == nil && fi.IsDir() {
+			base = "/dev/shm"
+		}
+	}
+	d, err := os.MkdirTemp(base, "c18env")
+	if err != nil {
+		panic(err)
+	}
+	return d
+}
 
 // NewEnv builds the network, runs it to the given height and wires the victim.
 func NewEnv(mode string, height uint64) (*Env, error) {
@@ -258,7 +275,7 @@ func NewEnv(mode string, height uint64) (*Env, error) {
 		}
 	}()
 	e := &Env{Mode: mode, AdvIdx: 3, byCh: map[byte]p2p.Reactor{}, nameByCh: map[byte]string{}}
-	e.Dir = netsim.ScratchDir()
+	e.Dir = scratchDir()
 	nodeOpts := func(i int) netsim.NodeOpts {
 		o := netsim.NodeOpts{Config: func(c *configs.ConsensusConfig) {
 			c.PeerGossipSleepDuration = gossipSleep
@@ -517,6 +534,9 @@ func (e *Env) Close() {
 	case <-done2:
 	case <-time.After(15 * time.Second): // a leaked consensus mutex (already reported) blocks the node's Stop
 		return // keep the scratch directory: goroutines of the abandoned node may still use it
+	}
+	if e.Abandoned {
+		return // (the parent process removes the whole scratch area at the end of the run)
 	}
 	os.RemoveAll(e.Dir)
 }
